@@ -358,6 +358,15 @@ func genC20(t *rapid.T, tier Tier) C20Case {
 	if len(root.Elems) == 0 {
 		root.Elems = append(root.Elems, genElem(0))
 	}
+	if rapid.IntRange(0, 119).Draw(t, "crowd?") == 0 {
+		// a crowd: the root plus 65..140 mutex-enabled members (more locks in one tree than any small fixed pool)
+		root.Mutex = true
+		k := rapid.IntRange(65, 140).Draw(t, "crowd")
+		for i := 0; i < k; i++ {
+			leafN += 2
+			root.Elems = append(root.Elems, Node{T: "stack", Kind: "OR", Mutex: true, Elems: []Node{LeafN(VS("c" + itoa(leafN))), LeafN(VS("c" + itoa(leafN+1)))}})
+		}
+	}
 	return C20Case{Root: root}
 }
 
